@@ -420,6 +420,11 @@ func (group *Group) delIn() {
 		group.customizeHookSessionContext = nil
 	}
 
+	// 合并发送的缓冲中还留有这个输入的尾部数据，现在发给rtmp sub，否则它们会滞留到下一个输入到来时才发出
+	if group.rtmpMergeWriter != nil {
+		group.rtmpMergeWriter.Flush()
+	}
+
 	group.stopPushIfNeeded()
 	group.stopHlsIfNeeded()
 	group.stopRecordFlvIfNeeded()
